@@ -23,7 +23,7 @@ def restart (s : St) (dir : String) (cfg : Cfg) : St := (openDB (close s).1 dir 
 theorem C02_restart_explicit (s : St) (db : DB) (g : GDir) (cfg' : Cfg)
     (hdb : s.db = some db) (hinv : Inv s db g)
     (hnomerge : s.world.get (mergeDirName db.dir) = none)
-    (hcfg : cfg'.fileSize > 0) :
+    (hcfg : cfg'.Valid) :
     ∃ d, s.world.get db.dir = some d ∧ Matches d.data g ∧
       close s = ({ world := s.world.set db.dir { d with data := syncAll d.data, locked := false },
                    db := none }, .ok) ∧
@@ -74,7 +74,7 @@ theorem C02_restart_explicit (s : St) (db : DB) (g : GDir) (cfg' : Cfg)
 theorem C02_restart (s : St) (db : DB) (g : GDir) (cfg' : Cfg)
     (hdb : s.db = some db) (hinv : Inv s db g)
     (hnomerge : s.world.get (mergeDirName db.dir) = none)
-    (hcfg : cfg'.fileSize > 0) :
+    (hcfg : cfg'.Valid) :
     (close s).2 = .ok ∧
     ∃ s' db', openDB (close s).1 db.dir cfg' = (s', .ok) ∧ s'.db = some db' ∧
       db'.dir = db.dir ∧ db'.cfg = cfg' ∧
@@ -116,7 +116,7 @@ theorem C02_restart (s : St) (db : DB) (g : GDir) (cfg' : Cfg)
 theorem C02_config_independent (s : St) (db : DB) (g : GDir) (cfg₁ cfg₂ : Cfg)
     (hdb : s.db = some db) (hinv : Inv s db g)
     (hnomerge : s.world.get (mergeDirName db.dir) = none)
-    (h₁ : cfg₁.fileSize > 0) (h₂ : cfg₂.fileSize > 0) :
+    (h₁ : cfg₁.Valid) (h₂ : cfg₂.Valid) :
     ∃ s₁ s₂ db₁ db₂, openDB (close s).1 db.dir cfg₁ = (s₁, .ok) ∧ openDB (close s).1 db.dir cfg₂ = (s₂, .ok) ∧
       s₁.db = some db₁ ∧ s₂.db = some db₂ ∧ s₁.world = s₂.world ∧ db₁ = { db₂ with cfg := cfg₁ } := by
   obtain ⟨d, hd, _, _, hopen₁⟩ := C02_restart_explicit s db g cfg₁ hdb hinv hnomerge h₁
@@ -127,7 +127,7 @@ theorem C02_config_independent (s : St) (db : DB) (g : GDir) (cfg₁ cfg₂ : Cf
 /-- **C02, any number of restarts with any configurations**: after `Close`/`Open` cycles with an
     arbitrary list of valid configurations the handle still has the same index, the same active
     file, denotes the same mapping, and satisfies the invariant for the same ghost directory -/
-theorem C02_restart_iter (cfgs : List Cfg) (hcfgs : ∀ c ∈ cfgs, c.fileSize > 0) :
+theorem C02_restart_iter (cfgs : List Cfg) (hcfgs : ∀ c ∈ cfgs, c.Valid) :
     ∀ (s : St) (db : DB) (g : GDir), s.db = some db → Inv s db g →
       s.world.get (mergeDirName db.dir) = none →
       ∃ db', (cfgs.foldl (fun s c => restart s db.dir c) s).db = some db' ∧
